@@ -159,6 +159,21 @@ def httpLine (st : HttpRun) (lineNo : Nat) (line : String) : Except String (Http
     if ok then .ok ({ st with steps := st.steps + 1, cover := bump st.cover s!"clientfault:{get "ep"}" }, []) else
       .ok ({ st with steps := st.steps + 1, fails := st.fails + 1 },
            [s!"PROPFAIL C09 client_sentinel hist={st.hist} line={lineNo} ep={get "ep"} kind={get "kind"} cli={get "cli"} exchanges={get "exchanges"} changed={get "changed"} (a gateway error must surface as an error)"])
+  | "httphang" :: rest =>
+    -- a request that is never answered: no statement about the front door, the ACL or the
+    -- conditional get admits it (every request ends in one of the specified answers)
+    let fs := fields rest
+    let get := fun k => (lookup fs k).getD ""
+    let what := s!"hist={st.hist} line={lineNo} ep={get "ep"} kind={get "kind"} n={(get "n").take 80} v={get "v"} via={get "via"}: the handler did not return within 20 s"
+    .ok ({ st with steps := st.steps + 1, fails := st.fails + 3 },
+         [s!"PROPFAIL C08 every_request_answered {what}", s!"PROPFAIL C09 four_outcomes {what}", s!"PROPFAIL C01 result_is_specified {what}"])
+  | "stuck" :: rest =>
+    -- the harness made no progress for a minute and a half: a call into the code under test has
+    -- not returned and never will.  No statement admits a call that is never answered.
+    let fs := fields rest
+    let note := ((lookup fs "note").bind unhexStr).getD ""
+    let what := s!"line={lineNo} a call did not return (the run was stopped by the watchdog): {note.take 1500}"
+    .ok ({ st with fails := st.fails + 5 }, [s!"PROPFAIL C08 every_request_answered {what}", s!"PROPFAIL C09 four_outcomes {what}", s!"PROPFAIL C01 result_is_specified {what}", s!"PROPFAIL C06 call_returns {what}", s!"PROPFAIL C18 call_returns {what}"])
   | _ =>
     if line.startsWith "#" || line.isEmpty then .ok (st, []) else .error s!"line {lineNo}: unknown line kind"
 
